@@ -7,9 +7,11 @@ import (
 	"fmt"
 	"os"
 	"path/filepath"
+	"runtime"
 	"strconv"
 	"strings"
 	"sync"
+	"time"
 )
 
 // Rng is splitmix64: every random choice of a harness derives from VERIF_SEED.
@@ -236,4 +238,79 @@ func UnHex(s string) []byte {
 		out[i] = byte(v)
 	}
 	return out
+}
+
+// parkedStates are the goroutine wait states in which a goroutine can make no progress by itself.
+var parkedStates = []string{"chan receive", "chan send", "select", "semacquire", "sync.Cond.Wait", "sync.WaitGroup.Wait", "IO wait", "sync.Mutex.Lock", "sync.RWMutex.RLock", "sync.RWMutex.Lock", "sleep"}
+
+// Goroutines returns, for every goroutine whose stack mentions substr, its wait state ("running",
+// "runnable", "select", "chan receive", …) as printed by runtime.Stack.
+func Goroutines(substr string) []string {
+	buf := make([]byte, 1<<20)
+	for {
+		n := runtime.Stack(buf, true)
+		if n < len(buf) {
+			buf = buf[:n]
+			break
+		}
+		buf = make([]byte, 2*len(buf))
+	}
+	var out []string
+	for _, g := range strings.Split(string(buf), "\n\n") {
+		if !strings.Contains(g, substr) {
+			continue
+		}
+		l := g
+		if i := strings.Index(l, "\n"); i >= 0 {
+			l = l[:i]
+		}
+		a, b := strings.Index(l, "["), strings.Index(l, "]")
+		if a < 0 || b < a {
+			continue
+		}
+		st := l[a+1 : b]
+		if i := strings.Index(st, ","); i >= 0 {
+			st = st[:i]
+		}
+		out = append(out, st)
+	}
+	return out
+}
+
+// WaitParked waits until there are exactly want goroutines whose stack mentions substr (want < 0: any
+// number >= 0) and all of them are parked. It reports false on timeout.
+func WaitParked(substr string, want int, timeout time.Duration) bool {
+	deadline := time.Now().Add(timeout)
+	stable := 0
+	for {
+		gs := Goroutines(substr)
+		ok := want < 0 || len(gs) == want
+		for _, st := range gs {
+			p := false
+			for _, x := range parkedStates {
+				if st == x {
+					p = true
+				}
+			}
+			if !p {
+				ok = false
+			}
+		}
+		if ok {
+			// a goroutine that was just readied can still be reported with its old wait state for a
+			// moment; accept quiescence only when two dumps in a row agree
+			stable++
+			if stable >= 2 {
+				return true
+			}
+			runtime.Gosched()
+			continue
+		}
+		stable = 0
+		if time.Now().After(deadline) {
+			return false
+		}
+		runtime.Gosched()
+		time.Sleep(20 * time.Microsecond)
+	}
 }
